@@ -77,6 +77,16 @@ class Evolution:
         if not t.nullable:
             return None
         name = self.nm('newf')
+        if self.rnd.random() < 0.3:
+            # name the new field after a union tag under which this struct travels (its fields are
+            # flattened next to ".tag", so the key of the new field equals the tag)
+            chain_names = {f.name for s_ in self.b.defs('struct') for f in self.b.own_fields(s_)
+                           if s_ is d or (d.ns, d.name) in [(a.ns, a.name) for a in self.b.ancestors(s_)] or
+                           (s_.ns, s_.name) in [(a.ns, a.name) for a in self.b.ancestors(d)]}
+            tags = [f.name for u in self.b.defs('union') for f in self.b.own_fields(u)
+                    if f.type is not None and self.b.target(f.type) is d and f.name not in chain_names]
+            if tags and not d.subtypes and not self.b.is_leaf(d):
+                name = self.rnd.choice(tags)
         d.fields.append(FieldDef(name=name, type=t, default=None, doc=None, anns=[]))
         self.new_fields.add((d.ns, d.name, name))
         return 'struct:' + self.used_positions(d)
